@@ -29,9 +29,9 @@ def assemble_unit(mod):
     return core.assemble(mod.NAME, tpl, mod.SPECS, getattr(mod, 'GROUPS', None))
 
 
-def run_harness(mod, h, ctext, info, trace_prop=None, nocache=False):
+def run_harness(mod, h, ctext, info, trace_prop=None, nocache=False, extra_defines=()):
     outdir = os.path.join(core.OUT, 'units', mod.NAME)
-    return core.build_and_check(mod.NAME, h, ctext, info, outdir, nocache=nocache, trace_prop=trace_prop)
+    return core.build_and_check(mod.NAME, h, ctext, info, outdir, nocache=nocache, trace_prop=trace_prop, extra_defines=extra_defines)
 
 
 def summarize(res):
